@@ -304,6 +304,20 @@ package goose
 //@   noframe
 //@   use ast
 //@   ensures [C04 a pointer type mentions nothing: no dependency is recorded for it] typeis(e, *ast.StarExpr) ==> depset == old(depset)
+//@   ensures [C04 the dependency on a type named by an identifier is recorded] typeis(e, *ast.Ident) ==> depset[ref(ctx.dep)][e.(*ast.Ident).Name]
+// Composite type expressions record the names in their components: they must translate them as
+// type *expressions* (coqType), not through type inference (coqTypeOfType records nothing).
+//@ func (Ctx).mapType (ctx, e)
+//@   may_reject
+//@   noframe
+//@   use ast
+//@   ensures [C04 the dependency on a named key type is recorded] typeis(e.Key, *ast.Ident) ==> depset[ref(ctx.dep)][e.Key.(*ast.Ident).Name]
+//@   ensures [C04 the dependency on a named value type is recorded] typeis(e.Value, *ast.Ident) ==> depset[ref(ctx.dep)][e.Value.(*ast.Ident).Name]
+//@ func (Ctx).arrayType (ctx, e)
+//@   may_reject
+//@   noframe
+//@   use ast
+//@   ensures [C04 the dependency on a named element type is recorded] typeis(e.Elt, *ast.Ident) ==> depset[ref(ctx.dep)][e.Elt.(*ast.Ident).Name]
 
 // ---- emission order (C04): every declaration is emitted once, after everything it mentions --------
 // Decls emits the declarations depth first. `emitted` is the ghost set of declarations whose Coq
